@@ -31,7 +31,9 @@ RULE = ("one run = one version-1 certificate file and one root key, judged by th
         "altered at rest (message / signature / tweak bit flip, signatures swapped, element re-signed by "
         "an unrelated key, re-parented, target added / removed), wrong root (other key, corrupted point), "
         "dishonest issuer (validly signed trees of depth 1..4 over {device, attestation, ui, signer} with "
-        "shared ancestors, missing / wrong tweaks); non-trivial = a certificate file existed and loaded "
+        "shared ancestors, missing / wrong tweaks, an element carrying the root's reserved name); the same "
+        "certificate object is then asked again 0..2 times under other roots; non-trivial = a certificate "
+        "file existed and loaded "
         "or was refused by both sides; distinct = (artefact class, alteration kind, element, verdict map)")
 TIERS = {"quick": {"runs": 8000, "wall": 240}, "thorough": {"runs": 150000, "wall": 3000}}
 MUTANT_RUNS = 1200
